@@ -7,6 +7,8 @@
 //---------------------------------------------------------------------------//
 #include "StatusChecker.hh"
 
+#include <mutex>
+
 #include "corecel/data/AuxStateVec.hh"
 #include "corecel/data/Copier.hh"
 #include "corecel/sys/ActionRegistry.hh"
@@ -128,6 +130,15 @@ void StatusChecker::step(ActionId prev_action,
  */
 void StatusChecker::begin_run_impl(CoreParams const& params)
 {
+    // This is called once per stream, possibly concurrently, and other streams
+    // may already be reading the data while stepping: build it exactly once.
+    static std::mutex initialize_mutex;
+    std::lock_guard<std::mutex> scoped_lock{initialize_mutex};
+    if (data_)
+    {
+        return;
+    }
+
     auto const& reg = *params.action_reg();
 
     HostVal<StatusCheckParamsData> host_val;
